@@ -27,6 +27,8 @@ var c15Binds = []struct{ key, action string }{
 	{"alt-q", "change-query(abc def abc def abc def abc def abc def abc de)"}, {"alt-r", "forward-char"}, {"alt-s", "toggle-header"},
 	{"alt-t", "change-query(zzzz)"}, {"alt-u", "end-of-line"}, {"alt-v", "forward-char+forward-char+forward-char+forward-char+forward-char"},
 	{"alt-w", "reload(GEN 1)"}, {"alt-x", "reload(GEN 0)"},
+	// the --header text replaced by one with another number of lines (or none): every other row moves
+	{"alt-y", "change-header(H1 one\nH2 two\nH3 three)"}, {"alt-z", "change-header(HX solo)"}, {"alt-1", "change-header(HA first\nHB second)"}, {"alt-2", "change-header()"},
 }
 
 const c15Header = "HDR:keys"
@@ -96,6 +98,22 @@ func genC15Plan(r *zsim.Rng) *sysPlan {
 	if r.Chance(1, 5) {
 		p.Args = append(p.Args, "--no-separator")
 	}
+	if r.Chance(1, 7) {
+		p.Args = append(p.Args, "--wrap")
+		// lines longer than the window
+		for k := r.Range(1, 5); k > 0; k-- {
+			var b strings.Builder
+			for w := r.Range(8, 40); w > 0; w-- {
+				for l := r.Range(1, 7); l > 0; l-- {
+					b.WriteByte(lineAlphabet[r.Intn(len(lineAlphabet))])
+				}
+				b.WriteByte(' ')
+			}
+			fmt.Fprintf(&b, "#y%d", k)
+			p.Lines.Extra = append(p.Lines.Extra, b.String())
+		}
+		p.Gens[0] = p.Lines
+	}
 	if r.Chance(1, 3) {
 		p.Args = append(p.Args, "--header", c15Header)
 	}
@@ -118,8 +136,8 @@ func genC15Plan(r *zsim.Rng) *sysPlan {
 		}
 	}
 	for _, b := range c15Binds {
-		if b.action == "toggle-header" && (p.Header > 0 || argValue(p.Args, "--layout") == "reverse-list") {
-			// header lines / reverse-list use separate header windows whose placement is outside the documented subset
+		if b.action == "toggle-header" && p.Header > 0 {
+			// header lines use a separate header window whose placement is outside the documented subset
 			continue
 		}
 		p.Args = append(p.Args, "--bind", b.key+":"+b.action)
@@ -302,11 +320,12 @@ func c15Settle(r *sysRun, busy bool) {
 	}
 	// --- list rows
 	_ = t.maxItems
+	// the --header text in force (state: change-header replaces it), one screen row per line
+	hdr := t.header0
+	nh := len(hdr)
 	headerRows0 := 0
 	if t.headerVisible {
-		if hasArg(plan.Args, "--header") {
-			headerRows0++
-		}
+		headerRows0 += nh
 		headerRows0 += minInt(plan.Header, len(loaded))
 	}
 	noSep := hasArg(plan.Args, "--no-separator")
@@ -331,9 +350,7 @@ func c15Settle(r *sysRun, busy bool) {
 	}
 	hlShown := hl
 	if t.headerVisible {
-		if hasArg(plan.Args, "--header") {
-			headerRows++
-		}
+		headerRows += nh
 		headerRows += hl
 	} else {
 		hlShown = 0
@@ -363,7 +380,66 @@ func c15Settle(r *sysRun, busy bool) {
 		sel[s] = true
 	}
 	textWidth := cols - 3
-	for k, row := range listRows {
+	exactRows := listRows
+	if hasArg(plan.Args, "--wrap") {
+		// --wrap: a line that does not fit continues on the next row(s) behind the wrap sign. Which rows a
+		// result takes is not modelled; what every row of the list must be is one contiguous piece of one of
+		// the results in view - nothing left over from what the row showed before.
+		exactRows = nil
+		c.count("probe.wrap", 1)
+		wrapSign := "↳ "
+		if !unicodeOn {
+			wrapSign = "> "
+		}
+		var cands []string
+		for idx := st.Offset; idx < len(st.Matches) && idx < st.Offset+len(listRows); idx++ {
+			if it := int(st.Matches[idx]) + hl; it < len(loaded) {
+				cands = append(cands, loaded[it])
+			}
+		}
+		wide := false
+		for _, cand := range cands {
+			if util.StringWidth(cand) != runeWidthOf(cand) {
+				wide = true // double-width glyphs take two screen cells each: bounds only (as for the unwrapped rows)
+			}
+		}
+		for _, row := range listRows {
+			if row < 0 || row >= rows {
+				continue
+			}
+			rs := []rune(scr[row])
+			if wide {
+				break
+			}
+			if len(rs) > cols {
+				c.violate("c15.width", "row %d is %d columns wide on a %d column screen", row, len(rs), cols)
+				return
+			}
+			if len(rs) <= 2 {
+				continue
+			}
+			text := strings.TrimRight(string(rs[2:]), " ")
+			piece := strings.TrimPrefix(text, wrapSign)
+			if text == strings.TrimRight(wrapSign, " ") {
+				piece = ""
+			}
+			found := piece == ""
+			for _, cand := range cands {
+				if strings.Contains(cand, piece) || strings.Contains(cand, strings.TrimSuffix(piece, ellipsis)) {
+					found = true
+					break
+				}
+			}
+			if !found {
+				c.violate("c15.row_text", "--wrap: row %d shows %q, which is not a piece of any of the %d results in view (%s)%s", row, text, len(cands), where, dump())
+				return
+			}
+			if len(cands) > 0 {
+				c.count("probe.wrap_row_checked", 1)
+			}
+		}
+	}
+	for k, row := range exactRows {
 		if row < 0 || row >= rows {
 			continue
 		}
@@ -435,10 +511,7 @@ func c15Settle(r *sysRun, busy bool) {
 	// --- header lines of the input: right next to the info/--header rows, in the direction of the layout;
 	// rows reserved for header lines the (re)loaded input does not have are blank
 	if plan.Header > 0 && t.headerVisible && layout != "reverse-list" {
-		base := 0
-		if hasArg(plan.Args, "--header") {
-			base = 1
-		}
+		base := nh
 		for j := 0; j < plan.Header; j++ {
 			row := rows - 1 - fixed - base - j
 			if layout == "reverse" {
@@ -464,29 +537,38 @@ func c15Settle(r *sysRun, busy bool) {
 			}
 		}
 	}
-	// --- header rows are where the layout puts them and never among list rows
-	if hasArg(plan.Args, "--header") && !t.headerVisible {
+	// --- header rows are where the layout puts them and never among list rows: the lines of the header
+	// text, top to bottom in the order given whatever the layout, next to the info row
+	if nh > 0 && !t.headerVisible {
 		for i, l := range scr {
-			if strings.Contains(l, c15Header) {
-				c.violate("c15.header", "the header is hidden but its text is still on screen row %d (%s)%s", i, where, dump())
-				return
+			for _, h := range hdr {
+				if strings.Contains(l, h) {
+					c.violate("c15.header", "the header is hidden but its text %q is still on screen row %d (%s)%s", h, i, where, dump())
+					return
+				}
 			}
 		}
 	}
-	if hasArg(plan.Args, "--header") && t.headerVisible {
-		found := -1
-		for i, l := range scr {
-			if strings.Contains(l, c15Header) {
-				found = i
+	if nh > 0 && t.headerVisible {
+		if nh > 1 {
+			c.count("probe.header_multi_line", 1)
+		}
+		for j, h := range hdr {
+			row := rows - 1 - fixed - (nh - 1) + j
+			if layout == "reverse" {
+				row = fixed + j
 			}
-		}
-		if found < 0 {
-			c.violate("c15.header", "the --header text is not on the screen (%s)%s", where, dump())
-			return
-		}
-		for _, lr := range listRows {
-			if lr == found {
-				c.violate("c15.header", "the header is drawn on list row %d (%s)%s", found, where, dump())
+			if row < 0 || row >= rows {
+				continue
+			}
+			for _, lr := range listRows {
+				if lr == row && lr < len(scr) && strings.Contains(scr[lr], h) {
+					c.violate("c15.header", "the header is drawn on list row %d (%s)%s", row, where, dump())
+					return
+				}
+			}
+			if want := "  " + h; runeWidthOf(want) < cols-2 && scr[row] != want {
+				c.violate("c15.header", "screen row %d should show line %d of the header, %q, but shows %q (%s)%s", row, j, want, scr[row], where, dump())
 				return
 			}
 		}
